@@ -37,15 +37,23 @@ def run_case(ci):
     if c['place'] != 'nobounds':
         span = np.maximum(np.abs(x0), 1.0)
         lb, ub = x0 - 0.5 * span, x0 + 0.7 * span
-        if c['place'] == 'near-face':
+        base_place = c['place'][:-5] if c['place'].endswith('-open') else c['place']
+        if base_place == 'near-face':
             lb = x0 - 1e-7 * span          # strictly inside, but closer to the face than any step
             ub[::2] = (x0 + 2e-7 * span)[::2]
-        elif c['place'] == 'on-face':
+        elif base_place == 'on-face':
             lb[0] = x0[0]
-        elif c['place'] == 'corner':
+        elif base_place == 'corner':
             lb = x0.copy() if n % 2 else lb
             if n % 2 == 0:
                 ub = x0.copy()
+        if c['place'].endswith('-open'):
+            # a half-open box (NdScipy.Places): the last coordinate is unbounded on both sides, the finite faces of the others stay
+            lb = np.array(lb, dtype=float)
+            ub = np.array(ub, dtype=float)
+            lb[-1] = -np.inf
+            if n > 1:
+                ub[-1] = np.inf
         kw['bounds'] = (lb, ub)
     obj = getattr(nds, c['cls'])(f, **kw)
     out = {}
@@ -290,7 +298,7 @@ def run(tier, rep):
     states, trans, per = vlib.merge_tlc([res, mres])
     cov = dict(states=states, transitions=trans, traces_validated_against_impl=n, samples=[CASES[3]], evaluations=n,
                distinct_nontrivial=len({(c['cls'], c['n'], c['m'], c['method'], c['place'], c['rel'], c['kind']) for c in CASES if c['place'] != 'nobounds'}),
-               rule='TLC: class x n 1..6 x m 1..5 x {central, forward, complex} x 5 placements in the box x 3 relative steps; functions affine / smooth from MC_Multi; non-trivial = bounded case',
+               rule='TLC: class x n 1..6 x m 1..5 x {central, forward, complex} x 8 placements in the box (three of them half-open boxes with infinite faces) x 3 relative steps; functions affine / smooth from MC_Multi; non-trivial = bounded case',
                tlc=per)
     assum = ['scipy.optimize approx_derivative is observed, not modelled', 'tolerances: complex 1e-11*scale; affine 1e-8*scale; smooth O(h) one-sided / O(h^2) central']
     return cov, assum
